@@ -78,6 +78,12 @@ UNIT = Unit("gui", ["base.rs", "gui.rs"], [
        hints=[(r"let ptr = ", 1, "proof { lemma_scaled(n0, c0, ss, st); }")],
        claims=[(r"vec_from_raw_parts\(", 1, "proof { assert(len * st <= n0 * ss && capacity * st <= c0 * ss && len <= capacity); }", "before", "C19", "raw-parts-describe-owned-memory")]),
     Fn(BIN, "fast_bitmap_transfer", mod="gui", props=["C19"], nloops=1,
+       # refusal-justification: a rectangle is refused as inverted only when it IS inverted (a one-pixel-high or -wide rectangle is valid), and a row is
+       # refused only when it really leaves the window buffer or the decoded image (an exact fit is painted)
+       claims=[(r'return Err\(Error::RdpError\(RdpError::new\(RdpErrorKind::InvalidSize, "Invalid destination rectangle"\)\)\)', 1,
+                "proof { assert(bitmap.dest_bottom < bitmap.dest_top || bitmap.dest_right < bitmap.dest_left); }", "before", "C19", "refused-as-inverted-only-when-inverted"),
+               (r'return Err\(Error::RdpError\(RdpError::new\(RdpErrorKind::InvalidSize, "Image have invalide size"\)\)\)', 1,
+                "proof { assert(dest_end as int > buffer@.len() || src_i + count > data_aligned@.len()); }", "before", "C19", "row-refused-only-when-it-leaves-the-buffers")],
        body_sub=[(r"copy_nonoverlapping\(data_aligned\.as_ptr\(\)\.offset\(\(src_i\) as isize\), buffer\.as_mut_ptr\(\)\.offset\(dest_i as isize\), count\)", "copy_rows(&data_aligned, src_i, buffer, dest_i, count)")],
        ensures=[("C19", "len", "final(buffer)@.len() == old(buffer)@.len()"),
                 ("C19", "inverted-refused", "(bitmap.dest_bottom < bitmap.dest_top || bitmap.dest_right < bitmap.dest_left) ==> r is Err && final(buffer)@ == old(buffer)@"),
